@@ -5600,6 +5600,10 @@ class CodegenCtx:
             size_str = self._generate_buflike_length_expr(intexpr.ref)
             if ProgramData.do(ProgramFlag.UNSAFE_STRING_INDEXING):
                 return text
+            # Only the bytes of a string's current value can be read: what lies behind them (left over from a longer earlier
+            # value, or never written at all) depends on where the string is stored and on whether delete frees it
+            if intexpr.ref.holds_a(OutputStorageType.STR):
+                size_str = f"state->{intexpr.ref.name}_counter"
             # A string allocated on demand has no buffer until it is first written (or again after a freeing delete): reads as 0
             if (ProgramData.do(ProgramFlag.ALLOCATE_STR_SPACE_DYNAMIC_ON_DEMAND) and self._is_dynamic(intexpr.ref) and
                     (intexpr.ref.default_value is None or ProgramData.do(ProgramFlag.DELETE_STRING_FREE_MEMORY))):
